@@ -301,6 +301,16 @@ func boundFor(bounds []nodeBound, n int) int {
 	return m
 }
 
+// prefixAlsoBinary: some prefix operator is also declared as binary operator.
+func (t *table) prefixAlsoBinary() bool {
+	for _, b := range t.Bin {
+		if t.isUn[b] {
+			return true
+		}
+	}
+	return false
+}
+
 func maxTableSize(bounds []nodeBound) int {
 	m := 0
 	for _, b := range bounds {
@@ -338,25 +348,43 @@ func runOps(ctx *bex.Ctx) {
 			maxNodes = extraNodes - 1
 		}
 		ctx.Add("tables_"+t.class, 1)
-		c := &checker{ctx: ctx, t: t, p: buildParser(t)}
-		en := &gx.Enumerator{Leaves: []*gx.Node{gx.L("?")}, Bin: t.Bin, Un: t.Un}
-		for lv := 0; lv <= maxNodes && !ctx.Expired(); lv++ {
-			en.Each(lv, func(shape *gx.Node) bool {
-				if ctx.Expired() {
-					return false
-				}
-				if t.Alias != "" && !usesOp(shape, t.Alias) {
-					return true // identical text to the alias-free table
-				}
-				k := 0
-				c.checkTree(relabel(shape, &k), lv < maxNodes, "ops", 0)
-				return true
-			})
+		// the same table handed over by other sequences of builder calls: only where a prefix operator is
+		// also a binary one (the parser relates the two declarations), alias-free tables
+		orders := []int{0}
+		if t.class == "pool" && t.Alias == "" && t.prefixAlsoBinary() {
+			orders = []int{0, 1}
+			if len(t.Bin) >= 2 {
+				orders = []int{0, 1, 2}
+			}
 		}
-		c.flush()
+		for _, o := range orders {
+			tt := t
+			if o != 0 {
+				cp := *t
+				cp.Order = o
+				tt = &cp
+				ctx.Add("tables_other_builder_order", 1)
+			}
+			c := &checker{ctx: ctx, t: tt, p: buildParser(tt)}
+			en := &gx.Enumerator{Leaves: []*gx.Node{gx.L("?")}, Bin: t.Bin, Un: t.Un}
+			for lv := 0; lv <= maxNodes && !ctx.Expired(); lv++ {
+				en.Each(lv, func(shape *gx.Node) bool {
+					if ctx.Expired() {
+						return false
+					}
+					if t.Alias != "" && !usesOp(shape, t.Alias) {
+						return true // identical text to the alias-free table
+					}
+					k := 0
+					c.checkTree(relabel(shape, &k), lv < maxNodes, "ops", 0)
+					return true
+				})
+			}
+			c.flush()
+		}
 		return true
 	})
-	ctx.SpaceDone(fmt.Sprintf("every ordered selection of n binary spellings from %v x every subset of prefix operators %v (also binary wherever the spelling is in the table, at every position incl. the last) x text alias off/on (alias for '+', else for the first operator; on: only trees using the aliased operator, written 'plus'), every tree with <= k operator nodes (leaves a b 1 by position) for {n<=, k} in %v; + %d dead-end tables and %d tables whose prefix operator is a proper prefix of a binary spelling (<= %d nodes) + 3 orders of the 16-operator table %v x every prefix subset (<= %d nodes); renderings: minimal tight, minimal blank-separated (trees below the top level), every subset of redundant parenthesis pairs, full",
+	ctx.SpaceDone(fmt.Sprintf("every ordered selection of n binary spellings from %v x every subset of prefix operators %v (also binary wherever the spelling is in the table, at every position incl. the last; such tables also with the builder calls in the orders Unary.Op and Op.Unary.Op) x text alias off/on (alias for '+', else for the first operator; on: only trees using the aliased operator, written 'plus'), every tree with <= k operator nodes (leaves a b 1 by position) for {n<=, k} in %v; + %d dead-end tables and %d tables whose prefix operator is a proper prefix of a binary spelling (<= %d nodes) + 3 orders of the 16-operator table %v x every prefix subset (<= %d nodes); renderings: minimal tight, minimal blank-separated (trees below the top level), every subset of redundant parenthesis pairs, full",
 		binPool, unPool, bounds, len(deadEndTables), len(prefixOfBinaryTables), extraNodes, widePool, extraNodes-1))
 }
 
